@@ -442,3 +442,44 @@ def form_api(vk, cfg):
         form = Form(v=fw, u=fw, dx=dV)(lambda: [lambda v, u, **kw: v[0] * M.ddot(B, u.grad)])
         A = dense(lambda: form.assemble(v=fv, u=fw))
         vk.ensures_eq("Form.assemble(v=new, u=new)==rectangular array form", A, Kup.T)
+
+
+@contract("C02", "default_flags", configs=[dict(grad_v=gv, grad_u=gu) for gv in ("omitted", True, False) for gu in ("none", "omitted", True, False) if not (gv != "omitted" and gu not in ("none", "omitted"))])
+def default_flags(vk, cfg):
+    """the documented defaults of IntegralForm's gradient flags: an omitted `grad_v` / `grad_u` means the gradient on the
+    FIRST field (False on all following ones), independently of the other flag -- the form with omitted flags assembles
+    to the same array as the form with the resolved flags given explicitly (which is the defining sum, `cartesian`)"""
+    vk.real(IntegralForm.__init__)
+    vk.real(IntegralForm.assemble)
+    rg = OpaqueRegion(vk, CELLS, 2, NQ, name="v")
+    f = fem.Field(rg, dim=2)
+    fc = fem.FieldContainer([f])
+    nc = CELLS.shape[0]
+    gv_cfg, gu_cfg = cfg["grad_v"], cfg["grad_u"]
+    gv = True if gv_cfg == "omitted" else gv_cfg  # resolved flags (documented default: True for the first field)
+    bilinear = gu_cfg != "none"
+    gu = True if gu_cfg == "omitted" else gu_cfg
+    shape = (2,) + ((2,) if gv else ())
+    if bilinear:
+        shape = shape + (2,) + ((2,) if gu else ())
+    fun = vk.reals("fun", shape + (NQ, nc))
+    kw = {}
+    if gv_cfg != "omitted":
+        kw["grad_v"] = [gv_cfg]
+    if bilinear:
+        kw["u"] = fc
+        if gu_cfg != "omitted":
+            kw["grad_u"] = [gu_cfg]
+    explicit = dict(grad_v=[gv], **({"u": fc, "grad_u": [gu]} if bilinear else {}))
+
+    def dense(form):
+        if vk.sym:
+            with coo.bound():
+                return np.asarray(coo.todense(form.assemble()))
+        return np.asarray(coo.todense(form.assemble()))
+
+    A = dense(IntegralForm([fun], fc, rg.dV, **kw))
+    B = dense(IntegralForm([fun], fc, rg.dV, **explicit))
+    vk.ensures_eq(f"IntegralForm({', '.join(f'{k}={v}' for k, v in kw.items() if k != 'u')}{', u' if bilinear else ''})==form with the resolved flags grad_v=[{gv}]" + (f", grad_u=[{gu}]" if bilinear else ""), A, B)
+    if vk.sym:
+        vk.canary("assembled form is zero", A, 0 * A)
